@@ -37,12 +37,21 @@ func main() {
 	base := sched.CycleHarness(101, false)
 	h := vh.Harness{}
 	h.Run2 = func(sel int, in []int64) ([]int64, []int64) {
-		if sel == 2 {
+		switch sel {
+		case 2:
 			return in, runReady(in)
+		case 3:
+			return in, runSubReady(in)
+		case 4:
+			return in, runMixed(in)
 		}
 		return base.Run2(sel, in)
 	}
 	h.Laws = func(sel int, in, got []int64, law func(lsel int, lin []int64, sig string)) {
+		if sel == 4 {
+			lawsMixed(law)
+			return
+		}
 		if sel != 1 {
 			return
 		}
@@ -61,6 +70,8 @@ func main() {
 		base.Gen(rng, n, emit)
 		genF10(rng, max(2, n/30), emit)
 		genRoles(rng, max(6, n/12), emit)
+		genSubReady(rng, max(20, n), emit)
+		genLawOnly(rng, max(9, n/2), emit)
 		genNext(rng, max(2, n/6), emit)
 		genReady(rng, max(20, n*3), emit)
 	}
